@@ -38,7 +38,7 @@ func TestC07(t *testing.T) {
 	o := lexgen.Opts{MaxModes: 3, ModeActs: true, Frags: true, Macros: false, ShuffleAct: true, Depth: 2, MaxRules: 4}
 	lexcheck.RunCheck(run, o, 320, 5000, 40, classify, nil)
 	if run.Replay == "" && run.Violations() == 0 {
-		run.RequireClass("depth>=2-and-returned", 50)
-		run.RequireClass("emit/discard-not-written-last", 50)
+		run.RequireClass("depth>=2-and-returned", 20)
+		run.RequireClass("emit/discard-not-written-last", 150)
 	}
 }
